@@ -26,6 +26,11 @@ def plan(ctx):
         # every sequence of 3 xor/and/not requests over 2 inputs
         for first in all_requests(4, ops=("x", "a", "n")):
             items.append({"kind": "exhaustive3", "first": first, "inputs": 2})
+    # every sequence of 4 xor/and requests over 3 inputs whose first request is op(i0, i1) and whose operands are
+    # inputs or earlier results (quick: distinct operands; thorough: also equal operands), ordered pairs
+    for first in (("x", "i0", "i1"), ("a", "i0", "i1")):
+        for second in pair_requests(3, 1, tier == "thorough"):
+            items.append({"kind": "exhaustive4", "first": first, "second": second, "inputs": 3, "equal": tier == "thorough"})
     nrand = 40 if tier == "quick" else 400
     for i in range(nrand):
         items.append({"kind": "random", "seed": seed * 1000 + i, "count": 25, "inputs": 3})
@@ -52,6 +57,11 @@ def all_requests(nrefs_or_list, ops=("x", "a", "o", "e", "n", "m", "d")):
         else:
             out += [(op, a, b, c) for a in rs for b in rs for c in rs]
     return out
+
+
+def pair_requests(n_inputs, n_results, equal):
+    rs = ["i%d" % k for k in range(n_inputs)] + ["r%d" % k for k in range(n_results)]
+    return [(op, a, b) for op in ("x", "a") for a in rs for b in rs if equal or a != b]
 
 
 def literal_eval(seq, in_bits):
@@ -163,13 +173,41 @@ def biased_sequence(rng, n_inputs, length):
     """random requests biased to the shapes the rewrite rules look for"""
     seq = []
     adders = set()
-    for k in range(length):
+    while len(seq) < length:
+        k = len(seq)
         rs = refs(n_inputs, k, adders)
         res = [x for x in rs if x.startswith("r")]
         p = rng.random()
 
         def pick():
             return rng.choice(res) if res and rng.random() < 0.7 else rng.choice(rs)
+        if p < 0.12 and res:
+            # distributivity shapes: z & (y1 ^ y2) with the products z & y1, z & y2 already requested, and
+            # (z & y1) ^ (z & y2) with y1 ^ y2 (and z & (y1 ^ y2)) already requested or not
+            j = rng.randrange(k)
+            if seq[j][0] in ("x", "a"):
+                y1, y2 = seq[j][1:3]
+                z = pick()
+
+                def sw(op, a, b):
+                    return (op, a, b) if rng.random() < 0.5 else (op, b, a)
+                if seq[j][0] == "x":
+                    seq.append(sw("a", z, y1))
+                    seq.append(sw("a", z, y2))
+                    if rng.random() < 0.5:
+                        seq.append(sw("a", z, "r%d" % j))
+                    else:
+                        seq.append(sw("x", "r%d" % k, "r%d" % (k + 1)))
+                else:
+                    # seq[j] = y1 & y2: request another product sharing y1 or y2, maybe the xor of the others, then xor the products
+                    sh, o1 = (y1, y2) if rng.random() < 0.5 else (y2, y1)
+                    seq.append(sw("a", sh, z))
+                    if rng.random() < 0.6:
+                        seq.append(sw("x", o1, z))
+                        if rng.random() < 0.6:
+                            seq.append(sw("a", sh, "r%d" % (k + 1)))
+                    seq.append(sw(rng.choice(["x", "a"]), "r%d" % j, "r%d" % k))
+                continue
         if p < 0.3 and res:
             # operand that is an XOR/AND of the other operand
             j = rng.randrange(k)
@@ -274,6 +312,23 @@ def work(item, drv):
         if batch:
             check_batch(drv, batch, n, st, out)
         out["samples"].append({"kind": kind, "first_request": list(first), "sequences": len(seqs) * 2})
+    elif kind == "exhaustive4":
+        n = item["inputs"]
+        first, second = tuple(item["first"]), tuple(item["second"])
+        batch = []
+        count = 0
+        for third in pair_requests(n, 2, item["equal"]):
+            for fourth in pair_requests(n, 3, item["equal"]):
+                seq = [first, second, third, fourth]
+                count += 1
+                for cache in (True, False):
+                    batch.append((seq, ["r0", "r1", "r2", "r3"], cache))
+                if len(batch) >= 400:
+                    check_batch(drv, batch, n, st, out)
+                    batch = []
+        if batch:
+            check_batch(drv, batch, n, st, out)
+        out["samples"].append({"kind": kind, "first_requests": [list(first), list(second)], "sequences": count * 2})
     else:
         rng = random.Random(item["seed"])
         n = item["inputs"]
@@ -313,8 +368,8 @@ def summarize(ctx, items, results):
                           "by the real CircuitBuilder + build() through the verif_hooks wrapper and the built circuit is compared for all inputs with the literal semantics of the "
                           "same requests, for every returned wire listed as an output (including inputs, constants, repeats; unlisted results are dead). Sequences are batched 200-400 per solver query.",
            "compiled_programs_on_off": programs, "builder_sequences": sequences, "gates_encoded": gates, "work_items": kinds, "solver": st.as_dict(),
-           "bounds": {"exhaustive": "all sequences of <= 2 requests of every kind over 2 inputs, cache on and off (thorough: also all length-3 xor/and/not sequences)",
-                      "random": "seeded sequences of 3..40 requests over 3 inputs biased to rewrite-rule shapes"},
+           "bounds": {"exhaustive": "all sequences of <= 2 requests of every kind over 2 inputs, cache on and off (thorough: also all length-3 xor/and/not sequences); all sequences of 4 xor/and requests over 3 inputs that start with op(i0,i1) and take inputs or earlier results as ordered operand pairs (quick: distinct operands, 115k sequences x cache on/off; thorough: equal operands too, 230k x 2)",
+                      "random": "seeded sequences of 3..40 requests over 3 inputs biased to rewrite-rule shapes (operand that is a gate over the other operand, known negations, gates sharing an operand, distributivity shapes with the products / the xor already requested)"},
            "functions_encoded": ["circuit.rs CircuitBuilder::{push_xor,push_and,push_not,push_or,push_eq,push_mux,push_adder,build,remove_unused_gates}", "compile_with_options(optimize_duplicate_gates = true | false)"]}
     return {"violations": viol, "errors": errors, "inconclusive": st.unknown, "inconclusive_limit": max(2, st.queries // 50), "coverage": cov,
             "level": "translation_validation",
